@@ -39,6 +39,8 @@ type collector struct {
 	bad  []string
 	ln   net.Listener
 	last time.Time
+	// delay makes the endpoint slow (per document, outside the lock)
+	delay time.Duration
 }
 
 func newCollector() (*collector, error) {
@@ -65,6 +67,13 @@ func newCollector() (*collector, error) {
 				} `json:"s3"`
 			} `json:"Records"`
 			Event string `json:"Event"`
+		}
+		co.mu.Lock()
+		dl := co.delay
+		co.last = time.Now()
+		co.mu.Unlock()
+		if dl > 0 {
+			time.Sleep(dl)
 		}
 		co.mu.Lock()
 		defer co.mu.Unlock()
@@ -405,6 +414,50 @@ func C19(c *core.Ctx, replay string) {
 				}(g)
 			}
 			wg.Wait()
+			// (2b) a burst against a slow endpoint: many notifications outstanding at once
+			// (one batch delete naming every key of a few hundred concurrent uploads)
+			co.mu.Lock()
+			co.delay = 8 * time.Millisecond
+			co.mu.Unlock()
+			nb := c.Pick(320, 900)
+			var bkeys []string
+			var wg2 sync.WaitGroup
+			for g := 0; g < nc; g++ {
+				wg2.Add(1)
+				go func(g int) {
+					defer wg2.Done()
+					for i := g; i < nb; i += nc {
+						k := fmt.Sprintf("burst-%04d", i)
+						body := Content("ev-"+k, 20+i%50)
+						r := PutObject(env.Root, d.b, k, body)
+						mu.Lock()
+						d.reqs = append(d.reqs, evReq{Op: "put", B: d.b, OK: r.OK(), Keys: []evKey{{K: k, OK: r.OK(), Size: int64(len(body)), Etag: s3c.MD5Hex(body), Vid: "-"}}})
+						if r.OK() {
+							bkeys = append(bkeys, k)
+						}
+						mu.Unlock()
+					}
+				}(g)
+			}
+			wg2.Wait()
+			r := DeleteObjects(env.Root, d.b, bkeys...)
+			req := evReq{Op: "deleteobjects", B: d.b, OK: r.OK(), Note: r.String()}
+			deleted := map[string]bool{}
+			if r.OK() {
+				var dr delResult
+				xmlUnmarshal(r.Body, &dr)
+				for _, x := range dr.Deleted {
+					deleted[x.Key] = true
+				}
+			}
+			for _, k := range bkeys {
+				req.Keys = append(req.Keys, evKey{K: k, OK: deleted[k], Size: -1, Etag: "-", Vid: "-"})
+			}
+			d.reqs = append(d.reqs, req)
+			co.quiesce(1500 * time.Millisecond)
+			co.mu.Lock()
+			co.delay = 0
+			co.mu.Unlock()
 		}
 		co.quiesce(400 * time.Millisecond)
 		evs, bad := co.drain()
